@@ -93,7 +93,8 @@ struct FamilySpec {
     std::vector<long> blocks;
     std::string str() const {
         std::string s = kind + ":p=" + std::to_string(chunks);
-        if (kind == "density") s += ":rep=" + std::to_string(rep) + ":w=" + std::to_string(width) + ":word=" + std::to_string(word);
+        if (kind == "density") s += ":rep=" + std::to_string(rep) + ":w=" + std::to_string(width) + ":word=" + std::to_string(word) + ":seam=" + std::to_string(seam);
+        else if (kind == "longrun") s += ":n=" + std::to_string(n) + ":seam=" + std::to_string(seam) + ":rep=" + std::to_string(rep) + ":w=" + std::to_string(width) + ":word=" + std::to_string(word);
         else if (kind == "seam") s += ":n=" + std::to_string(n) + ":seam=" + std::to_string(seam) + ":w=" + std::to_string(width) + ":word=" + std::to_string(word);
         else { s += ":rep=" + std::to_string(rep) + ":b="; for (size_t i = 0; i < blocks.size(); ++i) s += (i ? "." : "") + std::to_string(blocks[i]); }
         return s;
@@ -170,9 +171,23 @@ template<typename K> bool generate_family(const FamilySpec &f, size_t eps, std::
                 if (r < 2 || r + 2 >= f.rep) { focus.push_back(first_pos); focus.push_back(keys.size() - 1); if (keys.size() - first_pos > 2) focus.push_back(first_pos + 1); }
             }
         if (keys.size() <= 3000) { focus.clear(); for (size_t i = 0; i < keys.size(); ++i) if (i == 0 || keys[i] != keys[i - 1]) focus.push_back(i); }
+    } else if (f.kind == "longrun") {
+        // one run of duplicates that starts `width` positions relative to the start of chunk `seam` and ends `word` positions relative
+        // to the end of chunk seam + rep - 1 (both offsets may be negative); stride-3 background, a gap of 1000 after the run.
+        size_t n = size_t(f.n), p = size_t(f.chunks), chunk = n / p;
+        long start = long(size_t(f.seam) * chunk) + f.width, end = long((size_t(f.seam) + size_t(f.rep)) * chunk) - 1 + f.word;   // inclusive positions
+        if (start < 1 || end >= long(n) || end < start) return false;
+        W cur = 1000; keys.resize(n); keys[0] = cur;
+        for (size_t i = 1; i < n; ++i) { if (long(i) > start && long(i) <= end) {} else cur += (long(i) == end + 1 ? 1000 : 3); keys[i] = cur; }
+        for (long d = -3; d <= 3; ++d) { for (long base_pos : {start, end}) { long q = base_pos + d; if (q >= 0 && q < long(n)) focus.push_back(size_t(q)); } }
+        for (size_t s2 = 1; s2 < p; ++s2) for (long d = -2; d <= 2; ++d) { long q = long(s2 * chunk) + d; if (q >= 0 && q < long(n)) focus.push_back(size_t(q)); }
+        focus.push_back(0); focus.push_back(n - 1);
+        if (cur > hi) return false;
     } else if (f.kind == "density") {
         // clusters of 4 keys with stride 1 separated by a gap 40*m; the multiplier m changes every `rep` clusters following the digits of
         // `word` (base 4 -> multipliers 1,2,4,8), `width` digits: many short bottom segments and several segments on the upper levels.
+        // `seam` encodes an optional jump: 1 = gap of 3x the span so far after the first digit block, 2 = 30x after the first block,
+        // 3 = 30x after the third block (heavily skewed segment keys: long runs of empty Elias-Fano / top-level buckets).
         long w = f.word; W cur = 1000;
         const W mult[4] = {1, 2, 4, 8};
         for (long d = 0; d < f.width; ++d, w /= 4) {
@@ -180,7 +195,13 @@ template<typename K> bool generate_family(const FamilySpec &f, size_t eps, std::
                 size_t first_pos = keys.size();
                 for (int j = 0; j < 4; ++j) { cur += 1; keys.push_back(cur); }
                 cur += 40 * mult[w % 4];
-                if (c < 3 || c + 3 >= f.rep || c % 37 == 0) { focus.push_back(first_pos); focus.push_back(first_pos + 3); }
+                if (f.rep * f.width <= 60000 || c < 3 || c + 3 >= f.rep || c % 37 == 0) { focus.push_back(first_pos); focus.push_back(first_pos + 3); }
+            }
+            if ((f.seam == 1 && d == 0) || (f.seam == 2 && d == 0) || (f.seam == 3 && d == 2)) {
+                W span = cur - 1000, jump = span * (f.seam == 1 ? 3 : 30);
+                keys.push_back(cur + jump / 2);   // a lone key in the middle of the jump
+                focus.push_back(keys.size() - 1);
+                cur += jump;
             }
         }
         if (cur > hi) return false;
